@@ -34,6 +34,8 @@ class SocketTransport(CPXTransport):
         print('CPX socket transport')
         self._host = host
         self._port = port
+        # several threads send on one transport (the CRTP tunnel, other CPX users)
+        self._write_lock = Lock()
 
         self.connect()
 
@@ -53,8 +55,10 @@ class SocketTransport(CPXTransport):
         # the prefix describes the bytes that follow; packet.length is not refreshed when data is assigned
         data = bytearray(struct.pack('H', len(packet.data)+2))
         data += packet.wireData
-        # send() may take only part of the buffer; the rest of the frame must not be lost
-        self._socket.sendall(data)
+        # send() may take only part of the buffer; the rest of the frame must not be lost,
+        # and no other sender may get its bytes into the middle of this frame
+        with self._write_lock:
+            self._socket.sendall(data)
 
     def _readData(self, size):
         data = bytearray()
